@@ -141,12 +141,14 @@ LEVELS = {
         "text": "Proof: C17_match_total and C17_alloc_bounded (for every valid definition and EVERY log — any topics, data, offset and length "
                 "words up to 2^256-1 — matching returns yes/no, no slice access leaves its bounds, buffers are bounded by the log size), "
                 "C17_match_spec_static/topic/dynamic (documented semantics on well-formed data), C17_filter_exists and C17_filter_sound "
-                "(a matching log always passes the derived filter), C17_decode_valid. Partial: encode/decode round-trip is established "
-                "by byte-for-byte differential comparison of the model's RLP codec with go-ethereum's through MarshalBytes/UnmarshalBytes "
-                "on generated and mutated encodings, not by a theorem.",
+                "(a matching log always passes the derived filter), C17_decode_valid, C17_match_conjunction (no predicate's answer "
+                "depends on another one), C17_rlp_roundtrip (decode(encode(i) ++ rest) = (i, rest) for every RLP item tree with strings "
+                "below 2^64 bytes, with go-ethereum's canonical-form checks) and from it C17_roundtrip / C17_marshal_injective (every valid "
+                "definition is read back unchanged from its bytes; no two share an encoding). That the model's codec is go-ethereum's is "
+                "established by byte-for-byte comparison through MarshalBytes/UnmarshalBytes on generated and mutated encodings.",
         "design_ref": "DESIGN.md §4 C17",
         "note": "Trusted: Lean kernel; correspondence harness; my model of go-ethereum rlp canonical rules and of eth_getLogs matching; Go slice/big.Int semantics.",
-        "technique": "Lean 4 theorems (totality, bounds, filter soundness) over a model with explicit partial accesses + differential correspondence incl. byte-level RLP",
+        "technique": "Lean 4 theorems (totality, bounds, filter soundness, RLP round trip by mutual structural induction) over a model with explicit partial accesses + differential correspondence incl. byte-level RLP",
     },
     "C14": {
         "text": "Proof: C14_roundtrip — decode(encode(e)) = e for every well-formed event of all eight types (all uint64 including 0 and "
@@ -174,17 +176,22 @@ LEVELS = {
         "text": "Proof: C09_order_irrelevant / C09_replicas_agree state that, on every state reachable from any genesis, every ABCI call of "
                 "the model yields the same response and the same state whatever order each map is ranged over, so replicas given the same "
                 "block sequence agree at every height (induction over the history; the per-site lemmas are permutation invariance of the "
-                "vote count, of DiffPowermaps and of the sorted update list). C09_map_ranges_pinned / C09_clock_calls_pinned are "
+                "vote count, of DiffPowermaps and of the sorted update list). C09_mempool_irrelevant / C09_mempool_replicas: mempool checks "
+                "interleaved anywhere, on any mempool state, leave the answers to the block sequence unchanged (every block-sequence call "
+                "commutes with replacing the mempool bookkeeping; induction over the history). C09_map_ranges_pinned / C09_clock_calls_pinned are "
                 "`decide` theorems over facts regenerated from /repo on every run, so a new map range, clock, OS or randomness use in "
                 "package app breaks a proof obligation. The model is tied to the code by differential histories; replica agreement is "
-                "additionally observed directly (second OS process, repeated in-process runs, byte-wise).",
+                "additionally observed directly (second OS process, repeated in-process runs, replicas with other mempool views, a replica "
+                "restarted from its state file, one long single-sender history; byte-wise).",
         "design_ref": "DESIGN.md §4 C09",
         "note": "Trusted: Lean kernel; correspondence harness and factx; tx byte layer and crypto oracles are parameters of the model; "
                 "amino/protobuf/gob library determinism is observed, not proved.",
         "technique": "Lean 4 theorem (order-independence by induction over histories) + regenerated source facts + differential/two-process replica runs",
     },
     "C10": {
-        "text": "Proof: C10_refused_untouched, C10_checktx_outsider, C10_outsider_no_effect (on every state reachable from any genesis, by "
+        "text": "Proof: C10_malformed_config_refused / C10_malformed_checkin_refused (a structurally invalid configuration or check-in is "
+                "answered with a non-zero code, no events and an unchanged state, whoever sends it and for thresholds of any size), "
+                "C10_refused_untouched, C10_checktx_outsider, C10_outsider_no_effect (on every state reachable from any genesis, by "
                 "the DKG-membership invariant proved by induction over histories) and C10_noninterference (a simulation relation "
                 "'equal except one sender's nonce records' preserved by every ABCI call, so later answers to other senders are "
                 "identical over any continuation) are Lean theorems over the model; C10_total_* show the model's totalised accesses "
